@@ -17,7 +17,7 @@ The project is claimed to satisfy these semantic properties:
 
 Task: working in this region of the code — {region} — write ONE change to the source that breaks one of these properties (your choice; say which) while the project still compiles and its existing test suite still passes unchanged (`cd /tmp/mut-{tag} && cargo test --workspace --offline --no-fail-fast`: 58 tests + 14 doc-tests, all must pass). Choose the change you believe a thorough property checker (one that evaluates many generated queries against an independent exact oracle, sweeps every unit and prefix, compares token streams and trees, runs crash/restart scenarios, and so on) is MOST LIKELY TO MISS:
 * a realistic regression (refactor slip, off-by-one, shortcut taken too early, stale variable, two sites that each look fine alone), small (a few lines), not sabotage obvious at a glance, no change to tests;
-* it must need something specific to manifest — an unusual input shape, a particular multi-step sequence, a boundary value, a rarely used unit / prefix / token spelling / branch, a particular interleaving or fault — while all common inputs keep behaving correctly. Think about corners a generator would not naturally reach: boundary magnitudes, rarely combined features, unusual but legal spellings, state carried between calls, the 2nd/3rd iteration of a loop, inputs longer than usual.
+* it must need something specific to manifest — an unusual input shape, a particular multi-step sequence, a boundary value, a rarely used unit / prefix / token spelling / branch, a particular interleaving or fault — while all common inputs keep behaving correctly. Prefer a defect that needs TWO cooperating sites (each change looks fine alone), or state carried between calls or runs, or a fault at a particular moment. Think about corners a generator would not naturally reach: boundary magnitudes, rarely combined features, unusual but legal spellings, state carried between calls, the 2nd/3rd iteration of a loop, inputs longer than usual.
 
 Also write a demonstration: a Rust integration test (tests/demo_{tag}.rs using the public `anything` API) or a small shell script around the `any` binary that FAILS with your change and PASSES on the unchanged code. Verify both directions yourself. IMPORTANT: do NOT use `git stash` (the stash stack is shared by several worktrees that other people are using at the same time); save your change with `git diff -- src tools > /tmp/mut-{tag}-out/patch.diff`, remove it with `git apply -R /tmp/mut-{tag}-out/patch.diff`, run the demonstration, re-apply with `git apply /tmp/mut-{tag}-out/patch.diff`.
 
